@@ -53,7 +53,7 @@ class C03(Prop):
     def model_checks(self, tier):
         c = dict(self.consts(tier), Devs=set(), Depth=30, MaxFails=99, SampleOneIn=1)
         out = [dict(name="mc_ideal", consts=c, invariants=["StepInv"], constraint="Bound", view="ViewSt")]
-        for d in ("C03.usedb_keeps_reported_schema", "C03.current_functions_engine_defaults"):
+        for d in ("C03.usedb_keeps_reported_schema", "C03.current_functions_engine_defaults", "C03.merge_needs_current_schema"):
             out.append(dict(name="mc_" + d.split(".")[1], consts=dict(c, Devs={d}, Conn={"c1"}, Depth=6),
                             invariants=["StepInv"], constraint="Bound", view="ViewSt", devs=[d]))
         return out
@@ -136,7 +136,10 @@ class C03(Prop):
                             else:
                                 res = "badrows"
                         elif k == "ins":
-                            cur.execute(f"insert into {name(op)} values ('ins')")
+                            if op.get("how") == "merge":
+                                cur.execute(f"merge into {name(op)} using (select 'ins' as m) s on t.m = s.m when not matched then insert (m) values (s.m)")
+                            else:
+                                cur.execute(f"insert into {name(op)} values ('ins')")
                             got = []
                             for d, s, t in catalog(raw)[2]:
                                 n = raw.execute(f'select count(*) from "{d}"."{s}"."{t}" where m = \'ins\'').fetchall()[0][0]
